@@ -40,6 +40,14 @@ CLAIMED = {
          "Theorems (props/C07.v): detached round trip (both versions, both validators); attached presented as detached and detached presented as attached are refused (ErrWrongMessageType) whatever the keyring; authenticity reduction: VerifyDetached succeeds only for exactly the (message, header) pair the key signed in detached mode, or forgery/collision witness. Campaign: every kind of message/signature mutation, header transplants between signatures by the same key, fragmenting data-with-EOF reader for VerifyDetachedReader.",
          NOTE_COMMON + NOTE_CRYPTO + "Trailing bytes after the signature object are ignored by the code and by the model (not part of the property).",
          "DESIGN.md section 5 C07"),
+ "C08": ("Coq proof of literal byte equality between the implementation model (constants regenerated from /repo) and a specification model with literals copied from specs/*.md + the independent strict receiver written from the specs parsing every kind of library output",
+         "Theorems (props/C08.v): every string/number/nonce constructor the senders use equals the specification's literal (21 conjuncts over gen/Consts.v, so an edited constant in /repo breaks the proof at make time); for encryption V1/V2, attached V1/V2, detached V1/V2 and signcryption, what the model's sender emits equals byte for byte the specification encoder (twice-encoded header, minimal MessagePack forms, specified nonces, key boxes, recipient identifiers, MAC and signature inputs, packet field order) instantiated with 1 MiB chunks, final marker on the last packet only, minor 0, no extras; the library's chunking is one the specification allows. Campaign: ~560 (quick) outputs of every sender (all lengths incl. 0 and chunk boundaries, recipient configs, named/anonymous) must equal the extracted model's bytes and be authenticated and decoded to the same plaintext/sender/recipients/version by the strict reference receiver (minimal encodings, byte strings never nil, chunks <= 1 MiB).",
+         NOTE_COMMON + NOTE_CRYPTO + "The specification model is my transcription of the markdown; the Go reference receiver is a second, independent transcription. KNOWN FINDING (known_findings.txt): signature header nonce is 16 bytes, the specs say 32.",
+         "DESIGN.md section 5 C08"),
+ "C09": ("Coq proof: the GENERAL specification encoders (any chunking, minor version, extra trailing elements) are accepted by the model's receivers (induction over arbitrary packet lists) + reference-sender campaign against /repo",
+         "Theorems (props/C09.v): for attached, detached, encryption (every recipient position and visibility) and signcryption (box recipients), every message the general specification encoder can produce - chunks of 1 byte..1 MiB in any sequence, V1/V2, any fixnum minor, extra trailing elements in header, recipient pairs and packets - is accepted under a validator admitting its major version, yielding exactly the chunks' concatenation and the specified sender/recipient attribution (or the explicit foreign-box / identifier-collision witness). Campaign: 400 (quick) messages from the independent Go reference sender with random knobs to every /repo entry point (stream and all-at-once) and to the model.",
+         NOTE_COMMON + NOTE_CRYPTO + "Side condition: encoded header < 4 GiB. Signcryption symmetric-key recipients of foreign senders are covered by the campaign, not by a theorem. go-codec leniency (extras ignored, any int width) is modelled.",
+         "DESIGN.md section 5 C09"),
  "C10": ("Coq proof (induction over blocks, positional-numeral inversion) + exhaustive/differential correspondence of the extracted model with encoding/basex",
          "Machine-checked theorems over the Gallina model of encoding/basex: encodeBlock is fixed-width positional base conversion, decode(encode x)=x for every byte string, strict decoding accepts only canonical strings (non-minimal lengths, foreign characters and overflowing values rejected), skip characters are exactly deletable, length helper = encoder output length. The model is the extracted code the harness runs against the Go package on every run (all 1-byte blocks, all short strings, every length 0..4*blocklen+1, mutated encodings).",
          NOTE_COMMON + "Go float64/math.Log2 length formulas are not modelled; they are compared exhaustively on the domain the code evaluates them on. math/big is trusted. Streaming encoder/decoder: see C13.",
